@@ -1,10 +1,517 @@
-import JP.Driver
-import JP.Impl.Den
+import JP.Lemmas.EnsureApply
+import JP.Lemmas.EnsureFrame
+import JP.Lemmas.EnsurePointer
 
-/-! # Property C14 — theorems (see DESIGN.md §6) -/
+/-!
+# C14 — EnsurePathExistsOnAdd
+
+"With EnsurePathExistsOnAdd set, an add whose parent containers are missing creates them — an
+array when the next reference token is an array index or `-`, an object otherwise, padding arrays
+with null up to the addressed index — so that afterwards the added value is found at the given
+path, with `~0`/`~1` in tokens decoded as everywhere else.  Every location that existed before and
+is not on that path keeps its value, created containers hold nothing but the path and the padding,
+and an add that succeeds without the option gives the same result with it."
+
+Two layers:
+
+* **specification** (`Spec.ensureAdd`, `Spec.freshFor`; `Spec.applyOp` uses them for `add` when
+  `o.ensure`): `found_at_path`, `agrees_with_plain_add`, `only_path_and_padding` (+ `_arr`),
+  `frame` (the law of `C05.frame_object_paths` for an add with the option) and
+  `frame_through_arrays` (locations below arrays as well), `tokens_decoded`;
+* **refinement**: the engine model (`Impl.ensure`, `Impl.ensurePath`, `Impl.opAdd` with
+  `o.ensure = true`) computes what the specification says wherever the specification is defined:
+  `opAdd_ensure_refines` (+ `_toks`), and the engine refinement of C01 *without* the hypothesis
+  `o.ensure = false`: `applyOp_refines_ensure`, `applyOps_refines_ensure`, `apply_refines_ensure`.
+
+Where `Spec.ensureAdd` answers `unspec` (negative or non-canonical indices, `-` before the last
+token, a name addressed to an existing array, a null / scalar on the existing prefix, indices
+above 10000) nothing is claimed.  No corner was found inside the domain where the model deviates:
+the places where `ensurePathExists` ignores the error of `doc.add` are never reached there
+(`Ens.ensRef_doc_none`, `Ens.ensRef_ary_none`: the `add` succeeds).
+
+The proofs are in `JP/Lemmas/Ensure*.lean`.
+-/
 
 namespace JP
 namespace C14
+
+open Impl
+
+/-! ## Specification level -/
+
+/-- pointer lookup in which a final `-` addresses the last element of an array (the element an
+`add` at `-` has just appended); otherwise the ordinary lookup `Spec.resolve`
+(`Ens.resolveAdded_eq_resolve`) -/
+abbrev resolveAdded := @Ens.resolveAdded
+
+/-- the structure created below a missing parent for the remaining tokens: per token one
+container holding a single member, or nulls followed by a single element -/
+abbrev chain := @Ens.chain
+
+/-- the location `q` leaves the path `p` of the add: at an object by another member name, at an
+array by another (canonical, non-negative) index — and where `p` ends in that array, where the add
+inserts and shifts the later elements, by an index before the insertion point -/
+abbrev offPath := @Ens.offPath
+
+/-- the JSON pointer that spells the names `toks` (`~` as `~0`, `/` as `~1`) -/
+abbrev pointerOf := @Ens.pointerOf
+
+/-- **afterwards the value is found at the path** (with `-` read as the last index) -/
+theorem found_at_path (o : Spec.Opts) (v c : Value) (toks : List Bytes) (c' : Value) :
+    Spec.ensureAdd o v c toks = .ok c' → resolveAdded o c' toks = some v :=
+  Ens.found_at_path o v toks c c'
+
+/-- … which is the ordinary pointer lookup unless the pointer ends in `-` -/
+theorem found_at_path_resolve (o : Spec.Opts) (v c : Value) (toks : List Bytes) (c' : Value)
+    (hd : toks.getLast? ≠ some [45]) :
+    Spec.ensureAdd o v c toks = .ok c' → Spec.resolve o.neg c' toks = some v := by
+  intro h
+  have hne : toks ≠ [] := by
+    intro h0; subst h0; rw [Ens.ensureAdd_nil] at h; cases h
+  rw [← Ens.resolveAdded_eq_resolve o toks c' hne hd]
+  exact Ens.found_at_path o v toks c c' h
+
+/-- **an add that succeeds without the option gives the same result with it** (or the option's
+specification leaves the case open) -/
+theorem agrees_with_plain_add (o : Spec.Opts) (v c : Value) (toks : List Bytes) (c' : Value) :
+    toks ≠ [] → Spec.atParent o (Spec.addIn o v) c toks = .ok (c', ()) →
+    Spec.ensureAdd o v c toks = .ok c' ∨ Spec.ensureAdd o v c toks = .unspec :=
+  Ens.agrees_with_plain_add o v toks c c'
+
+/-- the same for one `add` operation: if it succeeds without the option and is inside the
+option's domain, it gives the same document with it -/
+theorem agrees_with_plain_add_op (o : Spec.Opts) (size acc : Nat) (d v : Value) (path : Bytes)
+    (d' : Value) (acc' : Nat)
+    (h : Spec.applyOp { o with ensure := false } size acc d { kind := .add, path := path, value := some v } =
+      .ok (d', acc')) :
+    Spec.applyOp { o with ensure := true } size acc d { kind := .add, path := path, value := some v } =
+        .ok (d', acc') ∨
+      Spec.applyOp { o with ensure := true } size acc d { kind := .add, path := path, value := some v } =
+        .unspec := by
+  cases hp : Spec.parsePointer path with
+  | none => simp only [Spec.applyOp, hp] at h; cases h
+  | some toks =>
+    cases toks with
+    | nil =>
+      left
+      simp only [Spec.applyOp, hp] at h ⊢
+      exact h
+    | cons t ts =>
+      rw [Ens.applyOp_add_ensure _ rfl size acc d v path (t :: ts) hp (by simp)]
+      simp only [Spec.applyOp, hp, Bool.false_eq_true, if_false] at h
+      obtain ⟨⟨d1, u⟩, h1, h2⟩ := Spec.Res.bind_eq_ok.1 h
+      simp only [Spec.Res.ok.injEq, Prod.mk.injEq] at h2
+      obtain ⟨rfl, rfl⟩ := h2
+      have h1' : Spec.atParent { o with ensure := true } (Spec.addIn { o with ensure := true } v) d (t :: ts) =
+          .ok (d1, ()) := by
+        rw [← Ens.atParent_congr { o with ensure := false } { o with ensure := true } rfl,
+          ← Ens.addIn_congr { o with ensure := false } { o with ensure := true } rfl]
+        exact h1
+      rcases Ens.agrees_with_plain_add _ v (t :: ts) d d1 (by simp) h1' with h3 | h3
+      · left; rw [h3]; rfl
+      · right; rw [h3]; rfl
+
+/-- **created containers hold nothing but the path and the padding** — object parent: when the
+member addressed by the first token is absent, it is appended and its value is `chain v rest` -/
+theorem only_path_and_padding (o : Spec.Opts) (v : Value) (ms : Value.Members) (t t2 : Bytes)
+    (ts : List Bytes) (c' : Value) :
+    Spec.ensureAdd o v (.obj ms) (t :: t2 :: ts) = .ok c' → Value.lookup t ms = none →
+    ∃ inner, chain v (t2 :: ts) = some inner ∧ c' = .obj (ms ++ [(t, inner)]) :=
+  Ens.only_path_and_padding_obj o v ms t t2 ts c'
+
+/-- … array parent: when the element addressed by the first token is absent, the array is padded
+with nulls up to that index and the new element's value is `chain v rest` -/
+theorem only_path_and_padding_arr (o : Spec.Opts) (v : Value) (xs : List Value) (t t2 : Bytes)
+    (ts : List Bytes) (c' : Value) (i : Int) :
+    Spec.ensureAdd o v (.arr xs) (t :: t2 :: ts) = .ok c' → Spec.classify t = .int i →
+    xs[i.toNat]? = none →
+    ∃ inner, chain v (t2 :: ts) = some inner ∧
+      c' = .arr (xs ++ List.replicate (i.toNat - xs.length) .null ++ [inner]) :=
+  Ens.only_path_and_padding_arr o v xs t t2 ts c' i
+
+/-- **frame** (`C05.frame_object_paths` for an add with the option): a location `q` reached
+through objects and incomparable with the pointer of the add keeps its value -/
+theorem frame (o : Spec.Opts) (_he : o.ensure = true) (size acc : Nat) (d v : Value) (path : Bytes)
+    (d' : Value) (acc' : Nat) (q : List Bytes) :
+    Spec.applyOp o size acc d { kind := .add, path := path, value := some v } = .ok (d', acc') →
+    (∀ p, Spec.parsePointer path = some p → Spec.Incomparable p q) → Spec.objPath o.neg d q →
+    Spec.resolve o.neg d' q = Spec.resolve o.neg d q ∧ Spec.objPath o.neg d' q :=
+  fun h hinc hobj =>
+    C05.frame_object_paths o size acc d _ d' acc' q h
+      (fun _ => ⟨hinc, fun hk => nomatch hk⟩) hobj
+
+/-- **frame, through arrays as well**: every location that existed before (`resolve … = some w`)
+and is not on the path (`offPath`) keeps its value -/
+theorem frame_through_arrays (o : Spec.Opts) (v : Value) (p q : List Bytes) (d d' w : Value) :
+    Spec.ensureAdd o v d p = .ok d' → offPath o.neg d p q → Spec.resolve o.neg d q = some w →
+    Spec.resolve o.neg d' q = some w :=
+  Ens.frame_ensure o v p q d d' w
+
+/-- `Spec.applyOp` hands `ensureAdd` the tokens of `Spec.parsePointer`, which decodes each token
+with `Spec.decodeTok` (`~1` ↦ `/`, `~0` ↦ `~`) as for every other operation -/
+theorem add_uses_parsed_tokens (o : Spec.Opts) (he : o.ensure = true) (size acc : Nat) (d v : Value)
+    (path : Bytes) (toks : List Bytes) (hp : Spec.parsePointer path = some toks) (hne : toks ≠ []) :
+    Spec.applyOp o size acc d { kind := .add, path := path, value := some v } =
+      (Spec.ensureAdd o v d toks).bind fun d' => .ok (d', acc) :=
+  Ens.applyOp_add_ensure o he size acc d v path toks hp hne
+
+/-- **tokens are decoded as everywhere else**: an add (with the option) at the pointer that spells
+the names `toks` with `~1` for `/` and `~0` for `~` puts the value at the unescaped names -/
+theorem tokens_decoded (o : Spec.Opts) (he : o.ensure = true) (size acc : Nat) (d v : Value)
+    (toks : List Bytes) (hne : toks ≠ []) (h : ∀ t ∈ toks, t ≠ []) (d' : Value) (acc' : Nat) :
+    Spec.applyOp o size acc d { kind := .add, path := pointerOf toks, value := some v } = .ok (d', acc') →
+    resolveAdded o d' toks = some v :=
+  Ens.tokens_decoded o he size acc d v toks hne h d' acc'
+
+/-! ## The engine refines the specification -/
+
+/-- **`add` with the option refines `ensureAdd`** (non-empty pointer): success with the
+specification's document, failure when the specification fails -/
+theorem opAdd_ensure_refines_toks {o : Impl.Opts} {e : Bool} {r : Impl.Root} {op : Impl.Op} {c : Cst}
+    {toks : List Bytes}
+    (he : o.ensure = true) (hr : InvRoot e r) (hval : op.value = some c) (hc : Inv e (.raw c))
+    (hp : Spec.parsePointer op.path = some toks) (hne : toks ≠ [])
+    (hq : ∀ t ∈ toks, QK e t = true) :
+    match Spec.ensureAdd (specOpts o) c.valueOf (den r.con) toks with
+    | .ok c' => ∃ r', Impl.opAdd o r op = .ok r' ∧ den r'.con = c' ∧ InvRoot e r'
+    | .fail _ => ∃ er, Impl.opAdd o r op = .err er
+    | .unspec => True :=
+  Ens.opAdd_ensure_toks he hr hval hc hp hne hq
+
+/-- `opAdd_refines` of `JP/Lemmas/EngineOps.lean` for `o.ensure = true`, against `Spec.applyOp` -/
+theorem opAdd_ensure_refines {o : Impl.Opts} {e : Bool} {r : Impl.Root} {op : Impl.Op} {sop : Spec.Op}
+    {c : Cst} (sz acc : Nat) (he : o.ensure = true) (hr : InvRoot e r)
+    (hk : sop.kind = .add) (hpath : sop.path = op.path)
+    (hval : op.value = some c) (hsval : sop.value = some c.valueOf)
+    (hc : Inv e (.raw c))
+    (hq : ∀ toks, Spec.parsePointer op.path = some toks → ∀ t ∈ toks, QK e t = true) :
+    OpRef e (Spec.applyOp (specOpts o) sz acc (den r.con) sop) (Impl.opAdd o r op) :=
+  Ens.opAdd_ensure_refines sz acc he hr hk hpath hval hsval hc hq
+
+/-- `C01.applyOp_refines` whatever `o.ensure` is -/
+theorem applyOp_refines_ensure (hEq : C01.EqSpec) (o : Impl.Opts) (hl : o.limit = 0)
+    (r : Impl.Root) (hr : InvRoot o.esc r) (op : Impl.Op) (sop : Spec.Op)
+    (hs : specOp op = some sop) (hop : C01.OpOK o.esc op) (sz acc : Nat) (acci : Int) :
+    OpRef o.esc (Spec.applyOp (specOpts o) sz acc (den r.con) sop)
+      (fstOut (Impl.applyOp o r acci op)) :=
+  Ens.applyOp_refines hEq o hl r hr op sop hs hop sz acc acci
+
+/-- **`C01.applyOps_refines` without the hypothesis `o.ensure = false`** -/
+theorem applyOps_refines_ensure (hEq : C01.EqSpec) (o : Impl.Opts) (hl : o.limit = 0)
+    (r : Impl.Root) (hr : Impl.WFRoot r = true) (htx : Impl.TX o.esc r.con = true)
+    (ops : List Impl.Op) (sops : List Spec.Op) (hops : specOps ops = some sops)
+    (hv : ∀ op ∈ ops, ∀ c, op.value = some c → c.valueOf.noDup = true)
+    (hcst : ∀ op ∈ ops, ∀ c, op.value = some c → Impl.CstOK o.esc c = true)
+    (hq : ∀ op ∈ ops, ∀ toks, Spec.parsePointer op.path = some toks → ∀ t ∈ toks, Impl.QK o.esc t = true)
+    (hfrm : ∀ op ∈ ops, op.kind = ascii "copy" → op.frm ≠ none)
+    (sizeAt : Nat → Nat) (i acc : Nat) (acci : Int) :
+    match Spec.applyFrom (specOpts o) sizeAt i acc (Impl.den r.con) sops with
+    | .ok v => ∃ r', Impl.applyOps o r acci ops = .ok r' ∧ Impl.den r'.con = v ∧
+        Impl.WFRoot r' = true ∧ Impl.TX o.esc r'.con = true
+    | .fail _ _ => ∃ e, Impl.applyOps o r acci ops = .err e
+    | .unspec => True := by
+  have h := Ens.applyOps_refines_inv hEq o hl sizeAt ops sops r i acc acci
+    ((InvRoot_iff _ _).2 ⟨hr, htx⟩) hops
+    (fun op hop => ⟨fun c hc => ⟨hv op hop c hc, hcst op hop c hc⟩, hq op hop, hfrm op hop⟩)
+  cases hres : Spec.applyFrom (specOpts o) sizeAt i acc (Impl.den r.con) sops with
+  | unspec => trivial
+  | fail j c => rw [hres] at h; exact h
+  | ok v =>
+    rw [hres] at h
+    obtain ⟨r', h1, h2, h3⟩ := h
+    exact ⟨r', h1, h2, ((InvRoot_iff _ _).1 h3).1, ((InvRoot_iff _ _).1 h3).2⟩
+
+/-- `C01.apply_refines` (from the document's syntax tree) without `o.ensure = false` -/
+theorem apply_refines_ensure (hEq : C01.EqSpec) (o : Impl.Opts) (hl : o.limit = 0)
+    (c : Cst) (hc1 : c.valueOf.noDup = true) (hc2 : Impl.CstOK o.esc c = true) (cr : Bool)
+    (ops : List Impl.Op) (sops : List Spec.Op) (hops : specOps ops = some sops)
+    (hv : ∀ op ∈ ops, ∀ c, op.value = some c → c.valueOf.noDup = true)
+    (hcst : ∀ op ∈ ops, ∀ c, op.value = some c → Impl.CstOK o.esc c = true)
+    (hq : ∀ op ∈ ops, ∀ toks, Spec.parsePointer op.path = some toks → ∀ t ∈ toks, Impl.QK o.esc t = true)
+    (hfrm : ∀ op ∈ ops, op.kind = ascii "copy" → op.frm ≠ none)
+    (sizeAt : Nat → Nat) :
+    match Spec.apply (specOpts o) sizeAt c.valueOf sops with
+    | .ok v => ∃ con r', Impl.decodeRoot c = .ok con ∧
+        Impl.applyOps o { con := con, self := .raw c, selfCR := cr } 0 ops = .ok r' ∧
+        Impl.den r'.con = v ∧ Impl.WFRoot r' = true
+    | .fail _ _ => ∃ con e, Impl.decodeRoot c = .ok con ∧
+        Impl.applyOps o { con := con, self := .raw c, selfCR := cr } 0 ops = .err e
+    | .unspec => True := by
+  simp only [Spec.apply]
+  cases hcont : c.valueOf.isContainer with
+  | false => simp
+  | true =>
+    simp only [if_true]
+    obtain ⟨con, hd, hinv, hden⟩ := C01.decodeRoot_spec (e := o.esc) hc1 hc2 hcont cr
+    have h := Ens.applyOps_refines_inv hEq o hl sizeAt ops sops _ 0 0 0 hinv hops
+      (fun op hop => ⟨fun c hc => ⟨hv op hop c hc, hcst op hop c hc⟩, hq op hop, hfrm op hop⟩)
+    simp only [hden] at h
+    cases hres : Spec.applyFrom (specOpts o) sizeAt 0 0 c.valueOf sops with
+    | unspec => trivial
+    | fail j cc =>
+      rw [hres] at h
+      obtain ⟨er, her⟩ := h
+      exact ⟨con, er, hd, her⟩
+    | ok v =>
+      rw [hres] at h
+      obtain ⟨r', h1, h2, h3⟩ := h
+      exact ⟨con, r', hd, h1, h2, ((InvRoot_iff _ _).1 h3).1⟩
+
+/-! ## The hypotheses are satisfiable: concrete instances -/
+
+section Examples
+
+theorem classify_two : Spec.classify (ascii "2") = .int 2 := by decide +kernel
+theorem classify_one : Spec.classify (ascii "1") = .int 1 := by decide +kernel
+theorem classify_zero : Spec.classify (ascii "0") = .int 0 := by decide +kernel
+theorem classify_b : Spec.classify (ascii "b") = .name := by decide
+theorem classify_d : Spec.classify (ascii "d") = .name := by decide
+
+def exV : Value := .bool true
+
+/-- `{"a":[null,null,{"b":true}]}` -/
+def exRes : Value := .obj [(ascii "a", .arr [.null, .null, .obj [(ascii "b", exV)]])]
+
+/-- `{}` + add `/a/2/b` = `{"a":[null,null,{"b":true}]}` -/
+theorem ex_ensureAdd (o : Spec.Opts) :
+    Spec.ensureAdd o exV (.obj []) [ascii "a", ascii "2", ascii "b"] = .ok exRes := by
+  rw [Ens.ensureAdd_obj_cons]
+  simp only [Value.lookup, Spec.freshFor, classify_two, Spec.Res.bind]
+  rw [if_neg (by decide), if_neg (by decide)]
+  simp only
+  rw [Ens.ensureAdd_arr_cons]
+  simp only [classify_two]
+  rw [if_neg (by decide), if_neg (by decide)]
+  simp only [Spec.freshFor, classify_b, Spec.Res.bind]
+  rfl
+
+/-- `found_at_path` -/
+example : resolveAdded {} exRes [ascii "a", ascii "2", ascii "b"] = some exV :=
+  found_at_path {} exV (.obj []) _ _ (ex_ensureAdd {})
+
+/-- `found_at_path` with a final `-`: `[1]` + add at the pointer `-` -/
+example : resolveAdded {} (.arr [.num (ascii "1"), exV]) [ascii "-"] = some exV :=
+  found_at_path {} exV (.arr [.num (ascii "1")]) _ _ (by rfl)
+
+/-- `found_at_path_resolve` -/
+example : Spec.resolve true exRes [ascii "a", ascii "2", ascii "b"] = some exV :=
+  found_at_path_resolve {} exV (.obj []) _ _ (by decide) (ex_ensureAdd {})
+
+/-- `agrees_with_plain_add`: `{"a":{}}` + add `/a/b` -/
+example :
+    Spec.ensureAdd {} exV (.obj [(ascii "a", .obj [])]) [ascii "a", ascii "b"] =
+        .ok (.obj [(ascii "a", .obj [(ascii "b", exV)])]) ∨
+      Spec.ensureAdd {} exV (.obj [(ascii "a", .obj [])]) [ascii "a", ascii "b"] = .unspec :=
+  agrees_with_plain_add {} exV _ _ _ (by simp) (by rfl)
+
+/-- `agrees_with_plain_add_op` -/
+example :
+    Spec.applyOp { ensure := true } 0 0 (.obj [(ascii "a", .obj [])])
+        { kind := .add, path := ascii "/a/b", value := some exV } =
+        .ok (.obj [(ascii "a", .obj [(ascii "b", exV)])], 0) ∨
+      Spec.applyOp { ensure := true } 0 0 (.obj [(ascii "a", .obj [])])
+        { kind := .add, path := ascii "/a/b", value := some exV } = .unspec :=
+  agrees_with_plain_add_op {} 0 0 _ exV (ascii "/a/b") _ 0 (by rfl)
+
+/-- `only_path_and_padding`: the member `a` of the example is exactly the chain for `2`, `b` -/
+example : ∃ inner, chain exV [ascii "2", ascii "b"] = some inner ∧
+    exRes = .obj ([] ++ [(ascii "a", inner)]) :=
+  only_path_and_padding {} exV [] (ascii "a") (ascii "2") [ascii "b"] exRes (ex_ensureAdd {}) rfl
+
+theorem ex_ensureAdd_arr (o : Spec.Opts) :
+    Spec.ensureAdd o exV (.arr [.null]) [ascii "2", ascii "b"] =
+      .ok (.arr [.null, .null, .obj [(ascii "b", exV)]]) := by
+  rw [Ens.ensureAdd_arr_cons]
+  simp only [classify_two]
+  rw [if_neg (by decide), if_neg (by decide)]
+  simp only [Spec.freshFor, classify_b, Spec.Res.bind]
+  rfl
+
+/-- `only_path_and_padding_arr`: `[null]` + add `/2/b` pads index 1 with null -/
+example : ∃ inner, chain exV [ascii "b"] = some inner ∧
+    Value.arr [.null, .null, .obj [(ascii "b", exV)]] =
+      .arr ([.null] ++ List.replicate ((2 : Int).toNat - [Value.null].length) .null ++ [inner]) :=
+  only_path_and_padding_arr {} exV [.null] (ascii "2") (ascii "b") [] _ 2 (ex_ensureAdd_arr {})
+    classify_two rfl
+
+/-- `frame`: `{"k":1}` + add `/a/b` (with the option) leaves `/k` alone -/
+example :
+    Spec.resolve true (.obj [(ascii "k", .num (ascii "1")), (ascii "a", .obj [(ascii "b", exV)])])
+        [ascii "k"] =
+      Spec.resolve true (.obj [(ascii "k", .num (ascii "1"))]) [ascii "k"] :=
+  (frame { ensure := true } rfl 0 0 (.obj [(ascii "k", .num (ascii "1"))]) exV (ascii "/a/b") _ 0
+    [ascii "k"] (by rfl)
+    (by
+      intro p hp
+      have : p = [ascii "a", ascii "b"] := Option.some.inj (hp.symm.trans (by rfl))
+      subst this
+      constructor <;> (intro h; rw [List.cons_prefix_cons] at h; exact absurd h.1 (by decide)))
+    (by
+      intro c x rest h
+      cases c with
+      | nil => exact ⟨_, rfl⟩
+      | cons y c => cases c <;> cases h)).1
+
+/-- `frame_through_arrays`: `[{"x":1},null]` + add `/2/b`: the location `/0/x` keeps its value -/
+example :
+    Spec.resolve true
+        (.arr [.obj [(ascii "x", .num (ascii "1"))], .null, .obj [(ascii "b", exV)]])
+        [ascii "0", ascii "x"] = some (.num (ascii "1")) := by
+  have h : Spec.ensureAdd {} exV (.arr [.obj [(ascii "x", .num (ascii "1"))], .null])
+      [ascii "2", ascii "b"] =
+      .ok (.arr [.obj [(ascii "x", .num (ascii "1"))], .null, .obj [(ascii "b", exV)]]) := by
+    rw [Ens.ensureAdd_arr_cons]
+    simp only [classify_two]
+    rw [if_neg (by decide), if_neg (by decide)]
+    simp only [Spec.freshFor, classify_b, Spec.Res.bind]
+    rfl
+  refine frame_through_arrays {} exV _ [ascii "0", ascii "x"] _ _ _ h ?_ ?_
+  · rw [offPath, Ens.offPath]
+    simp only [classify_zero, classify_two]
+    rw [if_neg (by decide), if_neg (by decide)]
+    trivial
+  · simp only [Spec.resolve, Spec.child, Spec.readIdx, classify_zero]
+    rfl
+
+/-- `tokens_decoded` / `add_uses_parsed_tokens`: the pointer `/m~1n/k~0` addresses the member
+`k~` of the member `m/n` -/
+example : pointerOf [ascii "m/n", ascii "k~"] = ascii "/m~1n/k~0" := by decide
+example : Spec.parsePointer (ascii "/m~1n/k~0") = some [ascii "m/n", ascii "k~"] := by rfl
+example :
+    resolveAdded { ensure := true } (.obj [(ascii "m/n", .obj [(ascii "k~", exV)])])
+      [ascii "m/n", ascii "k~"] = some exV :=
+  tokens_decoded { ensure := true } rfl 0 0 (.obj []) exV [ascii "m/n", ascii "k~"] (by simp)
+    (by decide) _ 0 (by rfl)
+
+/-! ### the engine -/
+
+def exO : Impl.Opts := { ensure := true }
+
+/-- the root `{}` -/
+def exR : Impl.Root := { con := .doc [] [], self := .nil }
+
+def exOp : Impl.Op := { kind := ascii "add", path := ascii "/a/2/b", value := some (.lit (ascii "true")) }
+
+theorem exR_inv : InvRoot exO.esc exR := (InvRoot_iff _ _).2 ⟨by decide, by decide⟩
+
+/-- `opAdd_ensure_refines_toks`: the engine turns `{}` into `{"a":[null,null,{"b":true}]}` -/
+example : ∃ r', Impl.opAdd exO exR exOp = .ok r' ∧ Impl.den r'.con = exRes := by
+  have h := opAdd_ensure_refines_toks (o := exO) (e := exO.esc) (r := exR) (op := exOp)
+    (c := .lit (ascii "true")) (toks := [ascii "a", ascii "2", ascii "b"]) rfl exR_inv rfl
+    ((Inv_raw _ _).2 ⟨by decide, by decide⟩) (by rfl) (by simp) (by decide)
+  have hv : (Cst.lit (ascii "true")).valueOf = exV := by rfl
+  have hd : Impl.den exR.con = .obj [] := by rfl
+  rw [hv, hd, ex_ensureAdd] at h
+  obtain ⟨r', h1, h2, _⟩ := h
+  exact ⟨r', h1, h2⟩
+
+/-- `opAdd_ensure_refines`: the same against `Spec.applyOp` -/
+example : ∃ r', Impl.opAdd exO exR exOp = .ok r' ∧ Impl.den r'.con = exRes := by
+  have h := opAdd_ensure_refines (o := exO) (e := exO.esc) (r := exR) (op := exOp)
+    (sop := { kind := .add, path := ascii "/a/2/b", value := some exV })
+    (c := .lit (ascii "true")) 0 0 rfl exR_inv rfl rfl rfl (by rfl)
+    ((Inv_raw _ _).2 ⟨by decide, by decide⟩)
+    (by intro toks ht; cases ht; decide)
+  have hd : Impl.den exR.con = .obj [] := by rfl
+  rw [hd, add_uses_parsed_tokens (specOpts exO) rfl 0 0 _ exV _ [ascii "a", ascii "2", ascii "b"]
+    (by rfl) (by simp), ex_ensureAdd] at h
+  obtain ⟨r', h1, _, h2⟩ := h
+  exact ⟨r', h1, h2⟩
+
+def exOps : List Impl.Op :=
+  [ exOp,
+    { kind := ascii "add", path := ascii "/c/d", value := some (.lit (ascii "true")) } ]
+
+def exSops : List Spec.Op :=
+  [ { kind := .add, path := ascii "/a/2/b", value := some exV },
+    { kind := .add, path := ascii "/c/d", value := some exV } ]
+
+/-- `{"a":[null,null,{"b":true}],"c":{"d":true}}` -/
+def exRes2 : Value :=
+  .obj [(ascii "a", .arr [.null, .null, .obj [(ascii "b", exV)]]),
+        (ascii "c", .obj [(ascii "d", exV)])]
+
+theorem ex_applyFrom :
+    Spec.applyFrom (specOpts exO) (fun _ => 0) 0 0 (.obj []) exSops = .ok exRes2 := by
+  simp only [exSops, Spec.applyFrom]
+  rw [add_uses_parsed_tokens (specOpts exO) rfl _ 0 _ exV _ [ascii "a", ascii "2", ascii "b"]
+    (by rfl) (by simp), ex_ensureAdd]
+  simp only [Spec.Res.bind]
+  rw [add_uses_parsed_tokens (specOpts exO) rfl _ 0 _ exV _ [ascii "c", ascii "d"]
+    (by rfl) (by simp)]
+  have : Spec.ensureAdd (specOpts exO) exV exRes [ascii "c", ascii "d"] = .ok exRes2 := by
+    rw [exRes, Ens.ensureAdd_obj_cons]
+    simp only [Value.lookup, Spec.freshFor, classify_d, Spec.Res.bind]
+    rw [if_neg (by decide)]
+    rfl
+  rw [this]
+  rfl
+
+/-- `applyOps_refines_ensure`: all hypotheses hold for a two-operation patch that creates an
+array with padding and an object -/
+example (hEq : C01.EqSpec) :
+    ∃ r', Impl.applyOps exO exR 0 exOps = .ok r' ∧ Impl.den r'.con = exRes2 := by
+  have hmem : ∀ (P : Impl.Op → Prop), (∀ op ∈ exOps, P op) ↔ (P exOps[0] ∧ P exOps[1]) := by
+    intro P; simp [exOps]
+  have hv : ∀ op ∈ exOps, ∀ c, op.value = some c → c.valueOf.noDup = true :=
+    (hmem _).2 (by refine ⟨?_, ?_⟩ <;> intro c hc <;> cases hc <;> decide)
+  have hcst : ∀ op ∈ exOps, ∀ c, op.value = some c → Impl.CstOK exO.esc c = true :=
+    (hmem _).2 (by refine ⟨?_, ?_⟩ <;> intro c hc <;> cases hc <;> decide)
+  have hq : ∀ op ∈ exOps, ∀ toks, Spec.parsePointer op.path = some toks →
+      ∀ t ∈ toks, Impl.QK exO.esc t = true :=
+    (hmem _).2 (by refine ⟨?_, ?_⟩ <;> intro toks ht <;> cases ht <;> decide)
+  have hfrm : ∀ op ∈ exOps, op.kind = ascii "copy" → op.frm ≠ none :=
+    (hmem _).2 (by refine ⟨?_, ?_⟩ <;> intro hk <;> exact absurd hk (by decide))
+  have h := applyOps_refines_ensure hEq exO rfl exR (by decide) (by decide) exOps exSops (by rfl)
+    hv hcst hq hfrm (fun _ => 0) 0 0 0
+  have hd : Impl.den exR.con = .obj [] := by rfl
+  rw [hd, ex_applyFrom] at h
+  obtain ⟨r', h1, h2, _⟩ := h
+  exact ⟨r', h1, h2⟩
+
+/-- `apply_refines_ensure`: the same from the document text's syntax tree `{}` -/
+example (hEq : C01.EqSpec) :
+    ∃ con r', Impl.decodeRoot (.obj []) = .ok con ∧
+      Impl.applyOps exO { con := con, self := .raw (.obj []), selfCR := false } 0 exOps = .ok r' ∧
+      Impl.den r'.con = exRes2 := by
+  have hmem : ∀ (P : Impl.Op → Prop), (∀ op ∈ exOps, P op) ↔ (P exOps[0] ∧ P exOps[1]) := by
+    intro P; simp [exOps]
+  have h := apply_refines_ensure hEq exO rfl (.obj []) (by decide) (by decide) false exOps exSops (by rfl)
+    ((hmem _).2 (by refine ⟨?_, ?_⟩ <;> intro c hc <;> cases hc <;> decide))
+    ((hmem _).2 (by refine ⟨?_, ?_⟩ <;> intro c hc <;> cases hc <;> decide))
+    ((hmem _).2 (by refine ⟨?_, ?_⟩ <;> intro toks ht <;> cases ht <;> decide))
+    ((hmem _).2 (by refine ⟨?_, ?_⟩ <;> intro hk <;> exact absurd hk (by decide)))
+    (fun _ => 0)
+  have hs : Spec.apply (specOpts exO) (fun _ => 0) (Cst.obj []).valueOf exSops = .ok exRes2 := by
+    have : (Cst.obj []).valueOf = .obj [] := by rfl
+    rw [this]
+    simp only [Spec.apply]
+    rw [if_pos (by rfl)]
+    exact ex_applyFrom
+  rw [hs] at h
+  obtain ⟨con, r', h1, h2, h3, _⟩ := h
+  exact ⟨con, r', h1, h2, h3⟩
+
+end Examples
+
+/-
+all of the following: a subset of [propext, Classical.choice, Quot.sound]
+#print axioms JP.C14.found_at_path
+#print axioms JP.C14.found_at_path_resolve
+#print axioms JP.C14.agrees_with_plain_add
+#print axioms JP.C14.agrees_with_plain_add_op
+#print axioms JP.C14.only_path_and_padding
+#print axioms JP.C14.only_path_and_padding_arr
+#print axioms JP.C14.frame
+#print axioms JP.C14.frame_through_arrays
+#print axioms JP.C14.add_uses_parsed_tokens
+#print axioms JP.C14.tokens_decoded
+#print axioms JP.C14.opAdd_ensure_refines_toks
+#print axioms JP.C14.opAdd_ensure_refines
+#print axioms JP.C14.applyOp_refines_ensure
+#print axioms JP.C14.applyOps_refines_ensure
+#print axioms JP.C14.apply_refines_ensure
+-/
 
 end C14
 end JP
